@@ -180,6 +180,13 @@ func buildAndVerify(vc vcase) VObs {
 			scheme = signature.SigningSchemeX509
 		}
 	}
+	if in.RevVec != nil && in.RevVec.Scheme != "" {
+		if in.RevVec.Scheme == "sa" {
+			scheme = signature.SigningSchemeX509SigningAuthority
+		} else {
+			scheme = signature.SigningSchemeX509
+		}
+	}
 	if in.Stores != nil {
 		if in.Stores.Scheme == "sa" {
 			scheme = signature.SigningSchemeX509SigningAuthority
@@ -210,6 +217,26 @@ func buildAndVerify(vc vcase) VObs {
 	if in.API == "Verify" {
 		ociDoc = &trustpolicy.OCIDocument{Version: "1.0", TrustPolicies: []trustpolicy.OCITrustPolicy{{
 			Name: "p", SignatureVerification: sv, TrustStores: stores, TrustedIdentities: ids, RegistryScopes: []string{scope}}}}
+		if in.Stores != nil && in.Stores.Other != "" && !in.Skip {
+			// a second statement, scoped elsewhere, listing another store: must never confer trust here
+			t, n := storeRef(in.Stores.Other, caStoreType(scheme))
+			other := trustpolicy.OCITrustPolicy{Name: "q", SignatureVerification: trustpolicy.SignatureVerification{VerificationLevel: "strict"},
+				TrustStores: []string{string(t) + ":" + n}, TrustedIdentities: []string{"*"}, RegistryScopes: []string{"registry.verif.example/other/repo"}}
+			// four layouts: the other statement is scoped to another repository or is the wildcard statement
+			// (then the applicable one is scoped exactly), and comes before or after the applicable one
+			layout := (vc.capOrd + 2*vc.baseIdx) % 4
+			if layout >= 2 {
+				other.RegistryScopes = []string{"*"}
+				ociDoc.TrustPolicies[0].RegistryScopes = []string{artifactRepo}
+			} else if layout == 1 {
+				ociDoc.TrustPolicies[0].RegistryScopes = []string{artifactRepo}
+			}
+			if layout%2 == 0 {
+				ociDoc.TrustPolicies = append(ociDoc.TrustPolicies, other)
+			} else {
+				ociDoc.TrustPolicies = append([]trustpolicy.OCITrustPolicy{other}, ociDoc.TrustPolicies...)
+			}
+		}
 		if in.Sel == "nildoc" {
 			blobDoc = &trustpolicy.BlobDocument{Version: "1.0", TrustPolicies: []trustpolicy.BlobTrustPolicy{{
 				Name: "bp", SignatureVerification: sv, TrustStores: stores, TrustedIdentities: ids}}}
